@@ -406,7 +406,14 @@ func runV2(c *v2.Client, o *Op) (out Outcome) {
 		}
 		return okOut()
 	case "setFailure":
-		v2.EmulateFailure(c, v2.FailureCondition(o.F))
+		switch {
+		case o.Legacy && o.F == "none":
+			v2.DeactiveForceFailure(c)
+		case o.Legacy && o.F == "deprecated":
+			v2.ActiveForceFailure(c)
+		default:
+			v2.EmulateFailure(c, v2.FailureCondition(o.F))
+		}
 		return okOut()
 	case "activateNative":
 		c.ActivateNativeInterpreter()
